@@ -179,6 +179,9 @@ def gen_case(rng):
         c.update(shape="no-ancestor-mix")
     elif git_mode == "git" and rng.random() < 0.2:
         c.update(shape="unequal-merge", side_len=rng.randint(1, 4), main_len=rng.randint(1, 3), merge_into_side=rng.random() < 0.5)
+        if rng.random() < 0.35:
+            # both tips equally far from the merge: only the timestamps decide; recording orders A,B,A / B,A,B / ...
+            c.update(main_len=c["side_len"], tie=rng.choice(["aba", "aba", "abab", "ab", "aab", "abb"]))
     return c
 
 
@@ -253,6 +256,11 @@ def eval_case(case):
             seq = order * rng.choice([1, 2, 2])          # X@A, Y@B, Z@A, ...
             if rng.random() < 0.5:
                 seq = seq[:3]
+            if case.get("tie"):
+                nver = 0
+                order = list(shape_tips)
+                rng.shuffle(order)
+                seq = [order[0] if ch == "a" else order[1] for ch in case["tie"]]
             tss = list(range(500, 500 + len(seq)))
             if rng.random() < 0.4:
                 rng.shuffle(tss)                          # insertion order unrelated to timestamp order
